@@ -1,10 +1,13 @@
 #!/bin/bash
 # usage: tools/try_patch.sh <patch.diff> <PROP> [PROP...]   -- run registered checks against a scratch copy of /repo with the patch applied
 D=$(mktemp -d /tmp/tp.XXXXXX)
-rsync -a --exclude '__pycache__' --exclude '*.so' --exclude '.git' /repo/ $D/ 
+rsync -a --exclude '__pycache__' --exclude '.git' /repo/ $D/
 P=$(readlink -f "$1"); if ! (cd $D && patch -p1 -s --no-backup-if-mismatch < "$P"); then echo "PATCH DOES NOT APPLY"; rm -rf $D; exit 9; fi
+# a patch that touches a .pyx needs the extension rebuilt for the native parts (bounded / cross-check / replay)
+if grep -q '\.pyx' "$P"; then (cd $D && /venv/bin/python setup.py build_ext --inplace >/dev/null 2>&1) || echo "ext rebuild failed"; fi
 shift
 for p in "$@"; do
-  VERIF_REPO=$D python3-vt /verif/check.py $p | grep -v "^   obligation" | tail -${TAILN:-6}; echo "exit=$? ($p)"
+  VERIF_REPO=$D python3-vt /verif/check.py $p > $D/.out 2>&1; rc=$?
+  grep -v "^   obligation" $D/.out | tail -${TAILN:-6}; echo "exit=$rc ($p)"
 done
 rm -rf $D
